@@ -5,7 +5,7 @@
 //! `F <json>` for a case that does not conform, `DONE <cases> <failed>` at the end.
 use serde_json::Value;
 use std::io::{BufRead, Write};
-use tdverif::cells::{Elem, Zst, K32};
+use tdverif::cells::{Elem, Zst, B3, K32};
 use tdverif::util::silence_panics;
 
 fn main() {
@@ -52,6 +52,7 @@ fn main() {
                 let f = match elem.as_str() {
                     "elem" => tdverif::hist::run_case::<Elem>(steps, cap, &mut events),
                     "u32" => tdverif::hist::run_case::<K32>(steps, cap, &mut events),
+                    "b3" => tdverif::hist::run_case::<B3>(steps, cap, &mut events),
                     "zst" => tdverif::hist::run_case::<Zst>(steps, cap, &mut events),
                     e => panic!("unknown elem {e}"),
                 };
@@ -69,6 +70,7 @@ fn main() {
                 let o = match elem.as_str() {
                     "elem" => tdverif::acc::run_case::<Elem>(&case, &mut events),
                     "u32" => tdverif::acc::run_case::<K32>(&case, &mut events),
+                    "b3" => tdverif::acc::run_case::<B3>(&case, &mut events),
                     "zst" => tdverif::acc::run_case::<Zst>(&case, &mut events),
                     e => panic!("unknown elem {e}"),
                 };
@@ -92,6 +94,7 @@ fn main() {
                 let f = match elem.as_str() {
                     "elem" => tdverif::iter::run_case::<Elem>(&case, &mut events),
                     "u32" => tdverif::iter::run_case::<K32>(&case, &mut events),
+                    "b3" => tdverif::iter::run_case::<B3>(&case, &mut events),
                     "zst" => tdverif::iter::run_case::<Zst>(&case, &mut events),
                     e => panic!("unknown elem {e}"),
                 };
